@@ -2,7 +2,8 @@
    history definitions in Proofs/C06Defs.v, the models in Model/Resume.v and
    Model/Cache.v. *)
 From Coq Require Import List NArith ZArith Bool.
-From Cedar Require Import Lib.Bytes Lib.Sym Model.Cache Model.Resume Proofs.C06Defs Proofs.C06.
+From Cedar Require Import Lib.Bytes Lib.Sym Model.Cache Model.Resume Proofs.C06Defs Proofs.C06
+  Proofs.C06KeyDefs Proofs.C06Key.
 Import ListNotations.
 Local Open Scope Z_scope.
 
@@ -139,7 +140,71 @@ Theorem C06_no_replay_partial :
 Proof. exact (conj replay_only_same_transcript no_key_no_accept). Qed.
 Print Assumptions C06_no_replay_partial.
 
+(* ---- the key of a session is immutable ------------------------------------------------
+   Histories (Proofs/C06KeyDefs.v) now also contain connections accepted by a dispatching
+   server (server.ServeConn) with ANY command table, per-command policy and Authorizer:
+   the resumption succeeds or fails, and the command is then served or refused (no
+   handler, raw-only, security level, Authorizer) -- in any order with stores, bare
+   resumptions, failed resumptions, renewals, ticks, Invalidate, InvalidateExpired and
+   invalidations in flight.
+
+   Key immutability: if every entry stored under sid in cache w carries key k0, then after
+   EVERY such history every entry stored under sid in that cache carries the key of the LAST
+   Store under sid into that cache (k0 if the history has none).  No refused command, failed
+   or successful resumption, renewal or sweep changes a stored key. *)
+Theorem C06_key_immutable : forall h st w sid k0,
+  key_is (fst st) w sid k0 ->
+  key_is (fst (fst (krun st h))) w sid (last_key (has_custom (fst st)) w sid k0 h).
+Proof. exact key_immutable. Qed.
+Print Assumptions C06_key_immutable.
+
+(* the refusal paths of the dispatcher have no effect on a cache, a reply or the handshake result *)
+Theorem C06_refused_command_leaves_cache : forall d s now q wc,
+  fst (fst (fst (serve_conn d s now q wc))) = fst (fst (handle_resumption s now q wc)) /\
+  snd (fst (fst (serve_conn d s now q wc))) = snd (fst (handle_resumption s now q wc)) /\
+  snd (fst (serve_conn d s now q wc)) = snd (handle_resumption s now q wc).
+Proof. exact dispatch_no_cache_effect. Qed.
+Print Assumptions C06_refused_command_leaves_cache.
+
+(* C06_needs_key over histories: after ANY history (refused commands between the attempts
+   included) a resumption that succeeds -- whether its command is then served or refused --
+   installs exactly the key of the last Store under that id: a 32-byte AES-GCM key; every
+   frame the server accepts was sealed under it, whatever it sends opens under no other. *)
+Theorem C06_needs_stored_key : forall h st d q wc s' rep n stt dr,
+  serve_conn d (fst (fst (krun st h))) (snd (fst (krun st h))) q wc = (s', rep, SOk n stt, dr) ->
+  exists w ki,
+    (forall k0, key_is (fst st) w (q_sid q) k0 ->
+       last_key (has_custom (fst st)) w (q_sid q) k0 h = Some ki) /\
+    st_key stt = Some (k_data ki) /\ is_aesgcm (k_proto ki) = true /\ lenN (k_data ki) = 32%N /\
+    dr = Some (dispatch d n) /\
+    (forall f p, srv_accept stt f = Some p ->
+       exists hdr iv, f = WSealed hdr iv (seal (k_data ki) iv (AadFirst (st_recv_dg stt) (st_send_dg stt) hdr) p)) /\
+    (forall hdr iv p, exists c, srv_send stt hdr iv p = WSealed hdr iv c /\
+       forall k' n' a' p', open k' n' a' c = Some p' -> k' = k_data ki).
+Proof. exact needs_stored_key. Qed.
+Print Assumptions C06_needs_stored_key.
+
 (* ---- non-vacuity ---------------------------------------------------------------- *)
+(* a resumption for an unregistered command (AUTHORIZED, then refused), a bare resumption, a tick, the
+   refused command again: the next resumption still installs rp_key -- and a key-less session
+   (C06_keyless_never holds in every state, hence after every history) is still refused *)
+Example C06_example_refused_commands_between :
+  key_is rp_srv InGlobal rp_sid (Some {| k_data := rp_key; k_proto := s_AES |}) /\
+  (exists o1 o2 o3, snd (krun (rp_srv, 10) kx_hist) =
+     [(kx_refused, ReplyAuthorized rp_sid, o1, Some DNoHandler); o2; (kx_refused, ReplyAuthorized rp_sid, o3, Some DNoHandler)]) /\
+  (exists s' n st, serve_conn kx_dsrv (fst (fst (krun (rp_srv, 10) kx_hist))) (snd (fst (krun (rp_srv, 10) kx_hist)))
+                     rp_req 60010 = (s', ReplyAuthorized rp_sid, SOk n st, Some DServed) /\ st_key st = Some rp_key).
+Proof.
+  split; [|split].
+  - intros e [<-|[]] _. reflexivity.
+  - do 3 eexists. vm_compute. reflexivity.
+  - do 3 eexists. vm_compute. split; reflexivity.
+Qed.
+Example C06_example_keyless_after_refused_commands :
+  let e := server_entry 0 rp_sid [x63] [] None true (Some [x75]) None 2100 950 in
+  let st := krun ({| s_custom := None; s_global := store empty_cache e |}, 10) kx_hist in
+  snd (handle_resumption (fst (fst st)) (snd (fst st)) rp_req 60010) = SErr.
+Proof. vm_compute. reflexivity. Qed.
 Example C06_example_resumes :
   exists s' n st, handle_resumption rp_srv 10 rp_req 60010 = (s', ReplyAuthorized rp_sid, SOk n st)
                   /\ st_key st = Some rp_key /\ n_user n = Some [x75] /\ n_authentication n = true.
